@@ -213,6 +213,16 @@ pub fn generate<W: Write>(c: &mut Cases<W>, rng: &mut Rng, thorough: bool, with_
             emit(c, &cfg, &es, with_old);
         }
     }
+    // the highest levels of zstd (windows of 2^25..2^27 bytes announced in every frame) on a small file, and the
+    // largest block sizes a usize can express (the writer must not size anything from the configured value)
+    for level in [20u32, 22] {
+        let es: Vec<_> = (0..40u32).map(|i| (i.to_be_bytes().to_vec(), vec![i as u8; (i % 40) as usize])).collect();
+        emit(c, &FileCfg { codec: CompressionType::Zstd, level, ..base.clone() }, &es, false);
+    }
+    for bs in [usize::MAX, (isize::MAX as usize) + 1, 1usize << 40] {
+        let es: Vec<_> = (0..30u32).map(|i| (i.to_be_bytes().to_vec(), vec![i as u8; 50])).collect();
+        emit(c, &FileCfg { block_size: bs, levels: (bs % 3) as u8, ..base.clone() }, &es, false);
+    }
     // large blocks: a value far larger than any internal buffer of the codecs (and incompressible),
     // next to small entries, for every codec at a low and a higher level
     for codec in CODECS {
@@ -422,6 +432,32 @@ pub fn generate_c18<W: Write>(c: &mut Cases<W>, rng: &mut Rng, thorough: bool) {
             emit(c, &cfg, &[(big.clone(), vec![1u8; 3]), (big.clone(), vec![2u8; 3])], false);
             emit(c, &cfg, &[(vec![0x60u8], vec![2u8; 3]), (big.clone(), vec![1u8; 3]), (vec![0x61u8; 5], vec![])], false);
             emit(c, &cfg, &[(vec![0x60u8], vec![2u8; 3]), (big.clone(), vec![1u8; 3]), (vec![0x62u8], vec![])], false);
+        }
+    }
+    // keys of eight bytes and more that agree on every whole 8-byte word they share and differ in the number of
+    // words (an order check that works word by word must still order them as byte strings): greater then
+    // smaller (must panic), and the sorted control
+    {
+        let base = FileCfg { codec: CompressionType::None, level: 0, block_size: 8192, unclamped: false, interval: None, levels: 1 };
+        for words in 1..=3usize {
+            for extra in [1usize, 2, 7, 8, 9, 15] {
+                for (x, y) in [(9u8, 5u8), (0xFF, 0x00), (1, 0)] {
+                    let p: Vec<u8> = (0..8 * words).map(|_| if x == 0xFF { 0xFF } else { rng.next() as u8 }).collect();
+                    let mut long = p.clone();
+                    long.push(x);
+                    long.extend((0..extra).map(|j| j as u8));
+                    let mut short = p.clone();
+                    short.push(y);
+                    // long > short as byte strings (x > y right after the shared words)
+                    emit(c, &base, &[(long.clone(), vec![1u8; 3]), (short.clone(), vec![2u8; 3])], false);
+                    emit(c, &base, &[(short.clone(), vec![2u8; 3]), (long.clone(), vec![1u8; 3])], false);
+                    // a shared first word only, the long key one word longer
+                    let mut longer = long.clone();
+                    longer.extend_from_slice(&[0u8; 8]);
+                    emit(c, &FileCfg { block_size: 16, unclamped: true, ..base.clone() }, &[(vec![0u8], vec![]), (longer.clone(), vec![]), (short.clone(), vec![])], false);
+                    c.bump("c18.wordwise_pairs", 1);
+                }
+            }
         }
     }
     // entries streamed into a writer that already holds entries (Merger::write_into_stream_writer on a
